@@ -208,9 +208,8 @@ def load_dot(path, procs=None):
     else:
         n = max(500, len(node_lines) // (procs * 4))
         chunks = [node_lines[i:i + n] for i in range(0, len(node_lines), n)]
-        ctx = multiprocessing.get_context('fork')
-        with ctx.Pool(procs) as pool:
-            parsed = [x for part in pool.map(_parse_nodes, chunks) for x in part]
+        from . import pools
+        parsed = [x for part in pools.fork_map(_parse_nodes, chunks, procs, ordered=True) for x in part]
     for nid, st, is_init in parsed:
         nodes[nid] = st
         if is_init:
